@@ -18,6 +18,11 @@ class DriverDied(Exception):
 def sanitizer_env(flavour):
     env = dict(os.environ)
     env.pop('LD_PRELOAD', None)
+    # the locale of the environment decides the collation of xsl:sort without lang and the code page of messages: fix it
+    for k in list(env):
+        if k.startswith('LC_') or k in ('LANG', 'LANGUAGE'):
+            del env[k]
+    env['LC_ALL'] = 'C'
     if flavour in ('asan', 'fuzz'):
         env['ASAN_OPTIONS'] = ('abort_on_error=1:halt_on_error=1:detect_leaks=0:allocator_may_return_null=1:'
                                'detect_stack_use_after_return=0:max_malloc_fill_size=0:malloc_context_size=12:'
